@@ -295,6 +295,18 @@ namespace BitSerializer::Convert::Utf
 						}
 					}
 				}
+				else
+				{
+					// UTF-32 source: surrogates and values above U+10FFFF are not Unicode scalar values
+					if (UnicodeTraits::IsInSurrogatesRange(sym) || sym > 0x10FFFF)
+					{
+						++invalidSequencesCount;
+						if (!Detail::HandleEncodingError(outStr, errorPolicy, errorMark)) {
+							return UtfEncodingResult(UtfEncodingErrorCode::InvalidSequence, startTailPos, invalidSequencesCount);
+						}
+						continue;
+					}
+				}
 
 				if (sym < 0x800)
 				{
@@ -439,11 +451,21 @@ namespace BitSerializer::Convert::Utf
 			}
 			else if constexpr (sizeof(TInCharType) == sizeof(char32_t))
 			{
+				size_t invalidSequencesCount = 0;
 				while (in != end)
 				{
+					TInIt startTailPos = in;
 					uint32_t sym = *in;
 					++in;
-					if (sym < 0x10000)
+					// Surrogates and values above U+10FFFF are not Unicode scalar values
+					if (UnicodeTraits::IsInSurrogatesRange(sym) || sym > 0x10FFFF)
+					{
+						++invalidSequencesCount;
+						if (!Detail::HandleEncodingError(outStr, errorPolicy, errorMark)) {
+							return UtfEncodingResult(UtfEncodingErrorCode::InvalidSequence, startTailPos, invalidSequencesCount);
+						}
+					}
+					else if (sym < 0x10000)
 					{
 						outStr.push_back(static_cast<TOutChar>(sym));
 					}
@@ -455,6 +477,7 @@ namespace BitSerializer::Convert::Utf
 						outStr.push_back(static_cast<TOutChar>(UnicodeTraits::LowSurrogatesStart | (sym & 0x3FF)));
 					}
 				}
+				return UtfEncodingResult(UtfEncodingErrorCode::Success, in, invalidSequencesCount);
 			}
 			return UtfEncodingResult(UtfEncodingErrorCode::Success, in, 0);
 		}
